@@ -115,7 +115,8 @@ func (c *Channel) read() {
 		// afraid to remove it!
 		b = bytes.ReplaceAll(b, []byte("\r"), []byte(""))
 
-		if bytes.Contains(b, []byte("\x1b")) {
+		// ESC, or the single character form of "ESC [" (U+009B) that the pattern also knows
+		if bytes.Contains(b, []byte("\x1b")) || bytes.Contains(b, []byte("\u009b")) {
 			b = util.StripANSI(b)
 		}
 
